@@ -31,12 +31,14 @@ def pipeline(ctx, comp, replay=None, parts=("tlc", "random"), mc=None):
         with open(rnd, "w") as f:
             f.writelines(l for l in open(allr) if '"comp":"%s"' % comp in l)
         files = [x for x in [("tlc", stim), ("random", rnd)] if x[0] in parts]
-    for name, sf in files:
-        tr = os.path.join(ctx.work, "%s_trace_%s.ndjson" % (comp, name))
-        rej += ctx.run_stimuli(hx, sf, tr, comp)
+    for name, prof, hxp, sf in kit.profile_runs(ctx, "hx_stream", files, replay):
+        tr = os.path.join(ctx.work, "%s_trace_%s_%s.ndjson" % (comp, name, prof))
+        r = ctx.run_stimuli(hxp, sf, tr, comp)
         ctx.count_distinct(tr)
         res = ctx.validate(c["trace"], tr, comp=comp, max_lines=40000, jobs=8)
-        rej += res["rejected"]
+        for x in r + res["rejected"] + res["heap"]:
+            x["profile"] = prof
+        rej += r + res["rejected"]
         heap += res["heap"]
         os.remove(tr)
     return rej, heap
